@@ -110,6 +110,18 @@ impl Session {
 
     fn op_inner(&mut self, line: &str) -> String {
         let toks: Vec<&str> = line.split(' ').filter(|t| !t.is_empty()).collect();
+        // operations on an object that does not exist (its creation failed earlier in the scenario)
+        let needs = match toks.as_slice() {
+            ["c", ..] => Some(self.client.is_some()),
+            ["k", ..] | ["poll"] | ["seek", ..] | ["consume", ..] | ["commit"] | ["subscriptions"] | ["last_consumed", ..]
+            | ["consumer_into_client"] => Some(self.cons.is_some()),
+            ["p", ..] | ["send_all", ..] | ["send", ..] | ["producer_into_client"] => Some(self.prod.is_some()),
+            ["consumer_create", "client", ..] | ["producer_create", "client", ..] => Some(self.client.is_some()),
+            _ => None,
+        };
+        if needs == Some(false) {
+            return "noobj".into();
+        }
         match toks.as_slice() {
             ["client_new", hosts] => {
                 self.client = Some(KafkaClient::new(hosts_of(hosts)));
@@ -252,8 +264,7 @@ impl Session {
                     };
                 }
                 match b.create() {
-                    Ok(mut k) => {
-                        k.client_mut().set_retry_backoff_time(Duration::from_millis(0));
+                    Ok(k) => {
                         self.cons = Some(k);
                         "ok".into()
                     }
